@@ -64,10 +64,11 @@ Proof.
 Qed.
 
 (* the 500 the ladder sends: a function of the configuration, the request's
-   version and Connection header, and where a scripted disconnect falls *)
+   version, Connection header and method (HEAD: no body, fix 52947ac), and where a
+   scripted disconnect falls *)
 Definition response_500 (n : nat) : list witem :=
   let body := if c_expose_tracebacks c then c_tb c else internal_error_text in
-  let er := mkReq (r_version r) (r_connection r) false false (Some (err_InternalServerError, body)) in
+  let er := mkReq (r_version r) (r_connection r) (r_head r) false (Some (err_InternalServerError, body)) in
   let x1 := task_service cap lower c er disc (new_task (r_version r) true, mkChan [] n)
                          (inr (err_InternalServerError, body)) in
   rev (ch_writes (snd (x_st x1))).
